@@ -39,6 +39,9 @@ type BuilderCase struct {
 	Reuse      bool        `json:"reuse"`    // one ProcessBuilder builds all the processes (Out() resets it) instead of a fresh one each
 	ConcBuild  bool        `json:"concBuild"` // every process is built by its own goroutine (own builder), all at the same time
 	Seed       int64       `json:"seed"`
+	// a process of another shape (forks that join again or end each on its own, sub-processes, several end events),
+	// parsed from a generated document and handed to DefinitionBuilder.AddProcess next to a chain: laid out too
+	Shape      *Program    `json:"shape,omitempty"`
 	viol       vlist
 	failed     bool
 	nacts      int
@@ -126,7 +129,39 @@ func genC19(d *Draw) Case {
 	}
 	c.Seed = int64(d.N(1 << 30))
 	c.Picks = drawPicks(d, 32)
+	if d.N(3) == 2 {
+		opts := ProgOpts{Kinds: []string{"seq", "xor", "and", "or", "sub", "condtask"}, MaxDepth: 1 + d.N(2), MaxTasks: 2 + d.N(6), OrEarlyEnd: true, EmptyBranches: d.Bool(), Throws: true}
+		c.Shape = GenProgram(d, opts)
+	}
 	return c
+}
+
+// layoutShape: processes that did not come from a ProcessBuilder go through AddProcess and AutoLayout.
+func (c *BuilderCase) layoutShape(cfg *schema.AutoLayoutConfig) {
+	vl := &c.viol
+	src, err := parseDefs(c.Shape.Defs.XML())
+	if err != nil {
+		vl.add("C19/harness", "shape document does not parse: %v", err)
+		return
+	}
+	db := schema.NewDefinitionsBuilder()
+	if c.Shape.Wrapped%2 == 0 {
+		// in front of it, an ordinary chain from the process builder
+		pb := schema.NewProcessBuilder()
+		pb.AddActivity(&schema.Task{})
+		db.AddProcess(*pb.Out())
+	}
+	for i := range *src.Processes() {
+		db.AddProcess((*src.Processes())[i])
+	}
+	db.AutoLayout(cfg)
+	out := db.Out()
+	nodes, flows := c19collect(out)
+	before := len(vl.v)
+	c.checkLayout(out, nodes, flows, cfg, map[string]string{})
+	for i := before; i < len(vl.v); i++ {
+		vl.v[i].Detail = "[process added through AddProcess: " + c.Shape.Desc + "] " + vl.v[i].Detail
+	}
 }
 
 func (c *BuilderCase) Env() *Env { return c.ProcCase.env }
@@ -321,6 +356,9 @@ func (c *BuilderCase) build() {
 
 	// --- layout ---
 	c.checkLayout(defs, nodes, flows, cfg, ids)
+	if c.Shape != nil {
+		c.layoutShape(cfg)
+	}
 
 	// --- round trip ---
 	out, err := xml.Marshal(defs)
@@ -718,6 +756,7 @@ func checkC19(cc Case, r *simrt.Result) *Outcome {
 	probe(o, "clock-stands-still-between-builder-calls", c.SleepMs == 0)
 	probe(o, "one-builder-reused-for-several-processes", c.Reuse && len(c.Procs) > 1)
 	probe(o, "processes-built-by-concurrent-goroutines", c.ConcBuild)
+	probe(o, "a-process-of-another-shape-laid-out-through-AddProcess", c.Shape != nil)
 	if c.failed {
 		o.Viol = vl.v
 		o.Sample = map[string]any{"procs": c.Procs, "run": "not started"}
